@@ -74,6 +74,8 @@ def _tree(val: Optional[str], where: int):
     ns = nodes(root)
     for n in ns:
         n.add_attribute("ns:k", "q")
+        n.add_extras("{u}clark", "c")          # a key in Clark notation whose URI is one the node binds
+        n.add_extras("{http://www.w3.org/XML/1998/namespace}lang", "en")
     if NSCFG == 0:
         shared = {"p": "u"}
         for n in ns:
